@@ -107,6 +107,7 @@ type InstResult struct {
 	SolverS   float64
 	WallS     float64
 	Errors    []string
+	Restarts  int // solver processes that died under a query of this instance and were replaced
 	Called    map[string]int
 	Stubs     map[string]int
 	Nontriv   int
@@ -140,6 +141,7 @@ func (r *Runner) runOne(ex *vm.Explorer, inst *vm.Instance, perInst time.Duratio
 	so := ex.SO
 	q0, s0, u0, k0, st0 := s.Queries+so.Queries, s.NSat+so.NSat, s.NUnsat+so.NUnsat, s.NUnknown+so.NUnknown, s.SolveTime+so.SolveTime
 	e0, eo0 := len(s.Errors), len(so.Errors)
+	rs0 := s.Restarts + so.Restarts
 	if perInst > 0 {
 		ex.Deadline = time.Now().Add(perInst)
 	} else {
@@ -180,6 +182,7 @@ func (r *Runner) runOne(ex *vm.Explorer, inst *vm.Instance, perInst time.Duratio
 	res.SolverS = (s.SolveTime + so.SolveTime - st0).Seconds()
 	res.Errors = append(res.Errors, s.Errors[e0:]...)
 	res.Errors = append(res.Errors, so.Errors[eo0:]...)
+	res.Restarts = s.Restarts + so.Restarts - rs0
 	res.WallS = time.Since(t0).Seconds()
 	res.Called = ex.M.Called
 	res.Stubs = ex.M.Stubs
@@ -212,6 +215,12 @@ func (r *Runner) RunAll(insts []*vm.Instance, perInst time.Duration) []*InstResu
 			if lp := os.Getenv("GOSYM_SMTLOG"); lp != "" {
 				f, _ := os.Create(lp)
 				so.Log = f
+			}
+			// fault injection (testing the restart path only): kill each solver process
+			// before every n-th exchange
+			if fk := os.Getenv("GOSYM_FAULT_KILL_EVERY"); fk != "" {
+				fmt.Sscanf(fk, "%d", &s.KillEvery)
+				so.KillEvery = s.KillEvery
 			}
 			ex := vm.NewExplorer(r.Prog, s)
 			ex.SO = so
@@ -501,6 +510,7 @@ func Execute(id, tier string, seed int64, verbose bool) int {
 	stubs := map[string]int{}
 	var samples []Sample
 	var solverErrors []string
+	restarts := 0
 	var allViol []vm.Violation
 	var valModels []vm.Violation
 	vacuous := []string{}
@@ -536,6 +546,7 @@ func Execute(id, tier string, seed int64, verbose bool) int {
 			samples = append(samples, sm)
 		}
 		solverErrors = append(solverErrors, res.Errors...)
+		restarts += res.Restarts
 		allViol = append(allViol, res.Viol...)
 		valModels = append(valModels, res.ValModels...)
 	}
@@ -802,7 +813,7 @@ func Execute(id, tier string, seed int64, verbose bool) int {
 	ev := &Evidence{PropertyID: id, Tier: tier, Seed: seed, Level: "model_checking", WallS: time.Since(t0).Seconds(), Violations: newViol,
 		Assumptions: append([]string{
 			"go/ssa (x/tools v0.29.0) is the meaning of the source; gosym's instruction semantics (validated by selftest and sampled native replays)",
-			"the SMT solver's answers (z3 5.1.0 by default) are trusted; every unknown/error makes the instance inconclusive",
+			"the SMT solver's answers (z3 5.1.0 by default) are trusted; every unknown/error makes the instance inconclusive; a solver process that dies under a query is replaced and the same query (same assertions) is asked again, at most 3 times (coverage.solver_restarts)",
 		}, chk.Assume...),
 		Coverage: map[string]interface{}{
 			"states":                        paths,
@@ -818,6 +829,7 @@ func Execute(id, tier string, seed int64, verbose bool) int {
 			"outside_claim":                 fam.Outside,
 			"queries":                       map[string]int{"total": queries, "sat": nsat, "unsat": nunsat, "unknown": nunknown},
 			"solver_s":                      solverS,
+			"solver_restarts":               restarts,
 			"stubs":                         stubNames,
 			"obligations":                   obligations,
 			"discharged":                    held,
@@ -837,8 +849,8 @@ func Execute(id, tier string, seed int64, verbose bool) int {
 		fmt.Printf("INCONCLUSIVE property=%s cannot write evidence: %v\n", id, err)
 		return 2
 	}
-	fmt.Printf("property=%s tier=%s instances=%d paths=%d obligations=%d discharged=%d nontrivial=%d queries=%d (sat %d unsat %d unknown %d) solver=%.1fs wall=%.1fs validated=%d canaries=%d/%d\n",
-		id, tier, evaluations, paths, obligations, held, nontriv, queries, nsat, nunsat, nunknown, solverS, time.Since(t0).Seconds(), validated, canaryOK, len(fam.Canaries))
+	fmt.Printf("property=%s tier=%s instances=%d paths=%d obligations=%d discharged=%d nontrivial=%d queries=%d (sat %d unsat %d unknown %d) solver=%.1fs wall=%.1fs validated=%d canaries=%d/%d solver_restarts=%d\n",
+		id, tier, evaluations, paths, obligations, held, nontriv, queries, nsat, nunsat, nunknown, solverS, time.Since(t0).Seconds(), validated, canaryOK, len(fam.Canaries), restarts)
 	code := 0
 	if len(mismatches) > 0 {
 		for i, mm := range mismatches {
